@@ -22,7 +22,7 @@ builddemo() {
   fi
 }
 rundemo() {
-  if [ -f $src/demo.c ]; then (cd $wt && timeout 600 ./_demo) >>$log 2>&1; return $?
+  if [ -f $src/demo.c ]; then (cd $wt && timeout 600 ./_demo ${DEMO_ARGS:-}) >>$log 2>&1; return $?
   else (cd $wt && MUT_ROOT=$wt timeout 600 bash $src/demo.sh $wt) >>$log 2>&1; return $?; fi
 }
 echo "== clean build" >>$log
